@@ -28,6 +28,10 @@ Definition expected_call (next : N) (o : op) : option scall :=
   | OWStat e d => Some (SWStat (c_fid e) d)
   | OClunk e => Some (SClunk (c_fid e))
   | ORemove e => Some (SRemove (c_fid e))
+  | OAuth u a => Some (SAuth (new_fid next) u a)
+  | OARead afid count off => Some (SRead afid count off)
+  | OAWrite afid data off => Some (SWrite afid data off)
+  | OAClose afid => if afid =? NOFID then None else Some (SClunk afid)
   end.
 
 (* the entry an operation works on, and the fid a call works on *)
@@ -35,10 +39,18 @@ Definition op_ent (o : op) : option cEnt :=
   match o with
   | OAttach _ _ _ => None
   | OWalk e _ | OOpen e _ | OOpenDir e | OCreate e _ _ _ | OStat e | OWStat e _ | OClunk e | ORemove e => Some e
+  | _ => None
+  end.
+(* the auth file an operation works on (by its afid) *)
+Definition op_afid (o : op) : option N :=
+  match o with
+  | OARead a _ _ | OAWrite a _ _ | OAClose a => Some a
+  | _ => None
   end.
 Definition call_fid (c : scall) : N :=
   match c with
-  | SAttach f _ _ _ | SWalk f _ _ | SOpen f _ | SCreate f _ _ _ | SStat f | SWStat f _ | SClunk f | SRemove f => f
+  | SAttach f _ _ _ | SWalk f _ _ | SOpen f _ | SCreate f _ _ _ | SStat f | SWStat f _ | SClunk f | SRemove f
+  | SAuth f _ _ | SRead f _ _ | SWrite f _ _ => f
   end.
 
 (* the entry a result hands to the caller *)
@@ -50,6 +62,7 @@ Definition allocates (o : op) : bool :=
   match o with
   | OAttach _ _ _ => true
   | OWalk _ names => negb (Z.ltb (snd (normalize_path names)) 0)
+  | OAuth _ _ => true
   | _ => false
   end.
 Definition n_allocs (ops : list (op * sres)) : nat := length (filter (fun oa => allocates (fst oa)) ops).
@@ -61,7 +74,7 @@ Definition next_of (x : option scall * cres * N) : N := snd x.
 (* ---- forwarding ---- *)
 Lemma forward msize next o ans : call_of (do_op msize next o ans) = expected_call next o.
 Proof.
-  destruct o as [u a af|e names|e m|e|e name perm mode|e|e d|e|e]; unfold call_of; cbn [do_op expected_call].
+  destruct o as [u a af|e names|e m|e|e name perm mode|e|e d|e|e|au an|afid cnt off|afid dat off|afid]; unfold call_of; cbn [do_op expected_call].
   - destruct af; reflexivity.
   - destruct (normalize_path names) as [steps bsp]. cbn [fst snd]. destruct (Z.ltb bsp 0); reflexivity.
   - reflexivity.
@@ -71,13 +84,27 @@ Proof.
   - reflexivity.
   - reflexivity.
   - reflexivity.
+  - reflexivity.
+  - reflexivity.
+  - reflexivity.
+  - destruct (afid =? NOFID); reflexivity.
+Qed.
+
+Lemma forward_auth_fid msize next o ans a c :
+  op_afid o = Some a -> call_of (do_op msize next o ans) = Some c -> call_fid c = a.
+Proof.
+  rewrite forward. intros Ha Hc.
+  destruct o; cbn [op_afid] in Ha; try discriminate; inversion Ha; subst; cbn [expected_call] in Hc.
+  - inversion Hc; reflexivity.
+  - inversion Hc; reflexivity.
+  - destruct (a =? NOFID); inversion Hc; reflexivity.
 Qed.
 
 Lemma forward_own_fid msize next o ans e c :
   op_ent o = Some e -> call_of (do_op msize next o ans) = Some c -> call_fid c = c_fid e.
 Proof.
   rewrite forward. intros He Hc.
-  destruct o as [u a af|e' names|e' m|e'|e' name perm mode|e'|e' d|e'|e']; cbn [op_ent] in He;
+  destruct o as [u a af|e' names|e' m|e'|e' name perm mode|e'|e' d|e'|e'|au an|afid cnt off|afid dat off|afid]; cbn [op_ent] in He;
     try discriminate; inversion He; subst; cbn [expected_call] in Hc.
   - destruct (Z.ltb (snd (normalize_path names)) 0); inversion Hc; reflexivity.
   - inversion Hc; reflexivity.
@@ -121,6 +148,18 @@ Proof.
     repeat split; eauto.
 Qed.
 
+(* ---- auth ---- *)
+Lemma auth_spec msize st u a ans :
+  let '(st', c, r) := step msize st (OAuth u a) ans in
+  c = Some (SAuth (new_fid (s_next st)) u a)
+  /\ match ans with
+     | AQid _ => r = CAuth (new_fid (s_next st)) (msize - 11)%Z
+                 /\ s_srv st' = new_fid (s_next st) :: s_srv st
+                 /\ map c_fid (s_live st') = new_fid (s_next st) :: map c_fid (s_live st)
+     | _ => r = CErr /\ s_srv st' = s_srv st /\ s_live st' = s_live st
+     end.
+Proof. unfold step. cbn [do_op]. destruct ans; cbn; repeat split; reflexivity. Qed.
+
 (* ---- the server's table is exactly the fids of the entries the caller holds ---- *)
 Lemma map_fid_replace live f e' : c_fid e' = f ->
   map c_fid (map (fun x => if c_fid x =? f then e' else x) live) = map c_fid live.
@@ -141,7 +180,7 @@ Definition table_inv (st : sys) : Prop := s_srv st = map c_fid (s_live st).
 Lemma step_table msize st o ans : table_inv st -> table_inv (fst (fst (step msize st o ans))).
 Proof.
   unfold table_inv, step. intros H.
-  destruct o as [u a af|e names|e m|e|e name perm mode|e|e d|e|e]; cbn [do_op].
+  destruct o as [u a af|e names|e m|e|e name perm mode|e|e d|e|e|au an|afid cnt off|afid dat off|afid]; cbn [do_op].
   - destruct af; cbn [fst s_srv s_live srv_step live_step]; auto; destruct ans; simpl; congruence.
   - destruct (normalize_path names) as [steps bsp]. destruct (Z.ltb bsp 0); cbn [fst s_srv s_live srv_step live_step]; auto.
     destruct ans; auto. destruct (Nat.eqb (length qids) (length steps)); simpl; congruence.
@@ -155,6 +194,11 @@ Proof.
   - cbn [fst s_srv s_live srv_step live_step]. destruct ans; auto.
   - cbn [fst s_srv s_live srv_step live_step]. rewrite H. destruct ans; rewrite map_fid_filter; reflexivity.
   - cbn [fst s_srv s_live srv_step live_step]. rewrite H. destruct ans; rewrite map_fid_filter; reflexivity.
+  - cbn [fst s_srv s_live srv_step live_step]. destruct ans; simpl; congruence.
+  - cbn [fst s_srv s_live srv_step live_step]. destruct ans; auto.
+  - cbn [fst s_srv s_live srv_step live_step]. destruct ans; auto.
+  - destruct (afid =? NOFID) eqn:En; cbn [fst s_srv s_live srv_step live_step]; rewrite ?En; auto.
+    rewrite H. destruct ans; rewrite map_fid_filter; reflexivity.
 Qed.
 
 Lemma run_table msize ops : forall st, table_inv st -> table_inv (run msize st ops).
@@ -179,11 +223,13 @@ Lemma next_step msize next o ans : next + 1 < 2 ^ 32 ->
   next_of (do_op msize next o ans) = if allocates o then next + 1 else next.
 Proof.
   intros Hs. unfold next_of.
-  destruct o as [u a af|e names|e m|e|e name perm mode|e|e d|e|e]; cbn [do_op allocates]; try reflexivity.
+  destruct o as [u a af|e names|e m|e|e name perm mode|e|e d|e|e|au an|afid cnt off|afid dat off|afid]; cbn [do_op allocates]; try reflexivity.
   - destruct af; cbn [snd]; apply new_fid_small; auto.
   - destruct (normalize_path names) as [steps bsp]. cbn [snd]. destruct (Z.ltb bsp 0); cbn [snd negb]; auto.
     apply new_fid_small; auto.
   - destruct (create_name_refused name); [reflexivity|]. destruct (negb (is_dir e)); reflexivity.
+  - cbn [snd]. apply new_fid_small; auto.
+  - destruct (afid =? NOFID); reflexivity.
 Qed.
 
 Lemma Forall_weaken_next (live : list cEnt) a b : a <= b ->
@@ -215,7 +261,7 @@ Proof.
   split; [|exact Hn]. unfold fid_inv. cbn [s_next s_live].
   assert (Hle : s_next st <= next') by (rewrite Hn; destruct (allocates o); lia).
   pose proof (Forall_weaken_next _ _ _ Hle Hr) as Hr'.
-  destruct o as [u a af|e names|e m|e|e name perm mode|e|e d|e|e]; cbn [do_op] in Hop.
+  destruct o as [u a af|e names|e m|e|e name perm mode|e|e d|e|e|au an|afid cnt off|afid dat off|afid]; cbn [do_op] in Hop.
   - (* attach *)
     cbn [allocates] in *.
     destruct af; inversion Hop; subst; cbn [live_step]; rewrite ?(new_fid_small _ Hs) in *;
@@ -249,6 +295,16 @@ Proof.
     + apply Forall_forall. intros x Hx. apply filter_In in Hx. rewrite Forall_forall in Hr'. apply Hr'. tauto.
     + apply NoDup_map_filter; auto.
   - inversion Hop; subst. cbn [live_step]. split.
+    + apply Forall_forall. intros x Hx. apply filter_In in Hx. rewrite Forall_forall in Hr'. apply Hr'. tauto.
+    + apply NoDup_map_filter; auto.
+  - (* auth *)
+    cbn [allocates] in *. inversion Hop; subst; cbn [live_step]; rewrite ?(new_fid_small _ Hs) in *.
+    destruct ans; try (split; assumption).
+    split; [constructor; [cbn; lia|assumption]|cbn [map c_fid]; constructor; auto; apply fresh_not_in; auto].
+  - inversion Hop; subst. destruct ans; cbn [live_step]; split; assumption.
+  - inversion Hop; subst. destruct ans; cbn [live_step]; split; assumption.
+  - destruct (afid =? NOFID) eqn:En; inversion Hop; subst; cbn [live_step]; rewrite En; [split; assumption|].
+    split.
     + apply Forall_forall. intros x Hx. apply filter_In in Hx. rewrite Forall_forall in Hr'. apply Hr'. tauto.
     + apply NoDup_map_filter; auto.
 Qed.
